@@ -36,7 +36,7 @@ class C09:
     def check_raw(case, cache):
         ops = case["ops"]
         refs = [None if op["op"] == "audit" else engine.reference(ops, k, (), cache) for k, op in enumerate(ops)]
-        sut = procs.run_child(engine.child_all, (ops,), shims=())
+        sut = procs.run_child(engine.child_all, (ops,), shims=(), timeout=engine.raw_timeout(ops))
         return engine.first_divergence(ops, sut, refs, raw_text=True)
 
     @staticmethod
